@@ -86,7 +86,11 @@ type lexer struct {
 	mu     sync.Mutex
 	eof    bool
 	rerr   error // read error other than io.EOF; only the lexer goroutine touches it
-	err    error
+	err    error // first error of the lexer goroutine
+	etok   int   // number of tokens emitted before err
+	perr   error // syntax error of the parser
+	ptok   int   // number of tokens received before the one perr is about
+	recv   int   // number of tokens received by the parser
 	cancel chan struct{}
 
 	aliases   []*alias
@@ -112,6 +116,7 @@ func newLexer(env *interp.ExecEnv, name string, r io.RuneScanner) *lexer {
 		name:    name,
 		r:       r,
 		token:   make(chan ast.Node),
+		done:    make(chan struct{}),
 		cancel:  make(chan struct{}),
 		heredoc: heredoc{c: make(chan struct{}, 1)},
 		line:    1,
@@ -125,7 +130,9 @@ func newLexer(env *interp.ExecEnv, name string, r io.RuneScanner) *lexer {
 
 func (l *lexer) Lex(lval *yySymType) int {
 	verifHook(l, hkLexBefore)
-	switch tok := (<-l.token).(type) {
+	tok := <-l.token
+	l.recv++
+	switch tok := tok.(type) {
 	case token:
 		verifHook(l, hkLexAfter)
 		l.last.Store(tok.Pos())
@@ -145,9 +152,7 @@ func (l *lexer) run() {
 	defer func() {
 		verifHook(l, hkRunExitBegin)
 		close(l.token)
-		if l.done != nil {
-			close(l.done)
-		}
+		close(l.done)
 		verifHook(l, hkRunExitEnd)
 
 		if e := recover(); e != nil && e != bailout {
@@ -752,7 +757,7 @@ func (l *lexer) scanHeredocs() bool {
 		}
 		return false
 	}
-	for h := l.heredoc.pop(); h != nil; h = l.heredoc.pop() {
+	for h := l.heredoc.pop(l.cancel); h != nil; h = l.heredoc.pop(l.cancel) {
 		l.mark(0)
 		// unquote
 		var word ast.Word
@@ -1556,18 +1561,16 @@ func (l *lexer) scanCmdSubst(r rune) bool {
 		verifHook(ll, hkJoinBefore)
 		<-ll.done
 		verifHook(ll, hkJoinAfter)
-		if ll.err != nil {
-			l.mu.Lock()
-			l.err = ll.err
+		if err := ll.result(); err != nil {
 			l.rerr = ll.rerr
-			if err, ok := l.err.(Error); ok && len(ll.stack) == 0 && r == '`' {
-				l.err = Error{
-					Name: err.Name,
-					Pos:  err.Pos,
+			if e, ok := err.(Error); ok && len(ll.stack) == 0 && r == '`' {
+				err = Error{
+					Name: e.Name,
+					Pos:  e.Pos,
 					Msg:  "syntax error: unexpected '`'",
 				}
 			}
-			l.mu.Unlock()
+			l.fail(err)
 			break
 		}
 		// apply changes
@@ -1761,15 +1764,10 @@ func (l *lexer) read() (rune, error) {
 	r, _, err := l.r.ReadRune()
 	switch {
 	case err != nil:
-		l.mu.Lock()
-		switch {
-		case err == io.EOF:
+		if err == io.EOF {
 			l.eof = true
-		case l.err == nil:
-			l.err = err
-		}
-		l.mu.Unlock()
-		if err != io.EOF {
+		} else {
+			l.fail(err)
 			l.rerr = err
 		}
 	case r == '\n':
@@ -1797,32 +1795,68 @@ func (l *lexer) unread() {
 	}
 }
 
+// Error reports a syntax error found by yyParse. It is only called by the
+// goroutine that runs yyParse, which does not ask for further tokens.
 func (l *lexer) Error(e string) {
-	l.error(l.last.Load().(ast.Pos), e)
-}
-
-func (l *lexer) error(pos ast.Pos, msg string) {
 	verifHook(l, hkError)
 	l.mu.Lock()
-	defer l.mu.Unlock()
-
-	if l.err != nil && strings.Contains(msg, ": unexpected EOF") {
-		return // lexing was interrupted
-	}
-	if _, ok := l.err.(Error); ok || l.err == nil {
-		l.err = Error{
+	if l.perr == nil {
+		l.perr = Error{
 			Name: l.name,
-			Pos:  pos,
-			Msg:  msg,
+			Pos:  l.last.Load().(ast.Pos),
+			Msg:  e,
 		}
+		l.ptok = l.recv - 1
 	}
+	l.mu.Unlock()
+	l.stop()
+}
 
+// error reports a syntax error found by the lexer. It is only called by the
+// lexer goroutine.
+func (l *lexer) error(pos ast.Pos, msg string) {
+	verifHook(l, hkError)
+	l.fail(Error{
+		Name: l.name,
+		Pos:  pos,
+		Msg:  msg,
+	})
+}
+
+// fail records the error which ends the lexing: a syntax error, a read
+// error or the error of a nested lexer. Only the first one counts.
+func (l *lexer) fail(err error) {
+	l.mu.Lock()
+	if l.err == nil {
+		l.err = err
+		l.etok = l.n
+	}
+	l.mu.Unlock()
+}
+
+// stop cancels the lexer goroutine. It is only called by the goroutine that
+// runs yyParse.
+func (l *lexer) stop() {
 	select {
 	case <-l.cancel:
 	default:
 		close(l.cancel)
 	}
 	verifHook(l, hkCancelClosed)
+}
+
+// result returns the error of the parse once the lexer goroutine has ended.
+// Of an error of the parser and an error of the lexer the one which comes
+// first in the input counts: the parser's, if it is about a token that was
+// complete before the lexer failed; otherwise the lexer's, which has cut
+// the token stream short.
+func (l *lexer) result() error {
+	l.mu.Lock()
+	defer l.mu.Unlock()
+	if l.perr != nil && (l.err == nil || l.ptok < l.etok) {
+		return l.perr
+	}
+	return l.err
 }
 
 type action func() action
@@ -1877,7 +1911,11 @@ func (h *heredoc) push(r *ast.Redir) {
 	}
 }
 
-func (h *heredoc) pop() *ast.Redir {
+// pop returns the next here-document the parser has announced. It waits
+// for the parser unless the parser has given up (cancel is closed): what the
+// parser had pushed before it gave up is still returned.
+func (h *heredoc) pop(cancel <-chan struct{}) *ast.Redir {
+	cancelled := false
 	for atomic.LoadUint32(&h.n) != 0 {
 		h.mu.Lock()
 		if n := len(h.stack); n != 0 {
@@ -1888,9 +1926,16 @@ func (h *heredoc) pop() *ast.Redir {
 			return r
 		}
 		h.mu.Unlock()
+		if cancelled {
+			break
+		}
 		// wait
 		verifHookH(h, hkPopWaitBefore)
-		<-h.c
+		select {
+		case <-h.c:
+		case <-cancel:
+			cancelled = true
+		}
 		verifHookH(h, hkPopWaitAfter)
 	}
 	return nil
